@@ -393,6 +393,42 @@ pub fn gen_msg(rng: &mut Rng, max_payload: usize) -> RMsg {
     }
 }
 
+impl RMsg {
+    /// false when the message carries a string or property name AMF0's u16 length cannot hold
+    /// (or an empty property name): such a message may be refused, or carried some other
+    /// correct way (AMF0 long strings), but never be converted into something that does not
+    /// convert back
+    pub fn amf_expressible(&self) -> bool {
+        match self {
+            RMsg::Data(vs) => vs.iter().all(amf::expressible),
+            RMsg::Command { name, obj, args, .. } => name.len() <= 65535 && amf::expressible(obj) && args.iter().all(amf::expressible),
+            _ => true,
+        }
+    }
+}
+
+/// a command or data message with one string (or name) of more than 65,535 bytes, ASCII or
+/// multi-byte, so that byte and character counts differ
+pub fn gen_msg_with_long_string(rng: &mut Rng) -> RMsg {
+    let cfg = amf::GenCfg { max_depth: 1, max_children: 2, inexpressible: true, long_strings: true };
+    let long = loop {
+        let s = amf::gen_string(rng, &cfg, false);
+        if s.len() > 65535 {
+            break s;
+        }
+    };
+    let carrier = match rng.below(3) {
+        0 => amf::V::Str(long),
+        1 => amf::V::Obj(vec![("k".to_string(), amf::V::Str(long))]),
+        _ => amf::V::Obj(vec![(long, amf::V::Null)]),
+    };
+    if rng.coin() {
+        RMsg::Data(vec![amf::s("onMetaData"), carrier])
+    } else {
+        RMsg::Command { name: "call".to_string(), txid: 2f64.to_bits(), obj: amf::V::Null, args: vec![carrier] }
+    }
+}
+
 pub fn gen_payload(rng: &mut Rng, max: usize) -> Vec<u8> {
     let n = match rng.below(8) {
         0 => 0,
